@@ -321,6 +321,22 @@ class Flow:
             return _apply_path(e, d.path)
         return ast.Name(id=d.name, ctx=ast.Load())
 
+    def guarded_alternatives(self, name_node: ast.Name, keep=frozenset(), depth: int = 8):
+        """[(conditions, value)] for the definitions of a local that reach `name_node`: conditions = canonical path conditions
+        of the defining statement, value = its expanded term (an augmented assignment includes what it extends).  Lets a rule
+        say 'under option X the value is …' whatever statement shape selects between the alternatives."""
+        from . import guards
+        old = getattr(self, "_keep", frozenset())
+        self._keep = frozenset(keep)
+        try:
+            out = []
+            for d in self.defs_of(name_node):
+                conds = [(k, e, p) for k, e, p in guards.path_conditions(self.ff.node, d.stmt)] if d.stmt is not None else []
+                out.append((conds, self._def_term(d, depth, frozenset()), d))
+            return out
+        finally:
+            self._keep = old
+
     # -- small predicates ------------------------------------------------------------
     def text(self, expr: ast.AST, depth: int = 8, keep=frozenset()) -> str:
         return " ".join(ast.unparse(self.expand(expr, depth, keep)).split())
@@ -375,6 +391,16 @@ class _RebuildWith:
                 else:
                     kw[f] = v
             new = type(n)(**kw)
+            if isinstance(new, ast.Call) and any(k.arg is None for k in new.keywords):
+                # canonical keywords: f(**{'a': x, 'b': y}) == f(a=x, b=y)
+                kws = []
+                for k in new.keywords:
+                    if k.arg is None and isinstance(k.value, ast.Dict) and k.value.keys and all(
+                            isinstance(kk, ast.Constant) and isinstance(kk.value, str) and kk.value.isidentifier() for kk in k.value.keys):
+                        kws += [ast.keyword(arg=kk.value, value=vv) for kk, vv in zip(k.value.keys, k.value.values)]
+                    else:
+                        kws.append(k)
+                new.keywords = kws
             return ast.copy_location(new, n) if hasattr(n, "lineno") else new
         return n
 
